@@ -187,6 +187,20 @@ func cmdCheck(args []string) int {
 			}
 		}
 	}
+	// obligations recorded as open known findings are expected to fail: a
+	// short budget is enough to notice if one has become provable
+	for _, kf := range loadKnownFindings() {
+		if kf.Status == "fixed" || kf.Property != prop.ID {
+			continue
+		}
+		for _, r := range run.results {
+			for _, o := range r.Obligations {
+				if o.Name == kf.Obligation {
+					o.Short = true
+				}
+			}
+		}
+	}
 	discharge(run.results, dischargeOpts{timeoutS: timeout, workers: 12})
 	if tier == "thorough" {
 		// second, independent discharge of every obligation with the other
@@ -395,7 +409,7 @@ func (run *checkRun) knownStillOnlyKnown(eng *Engine, r *FuncResult, o *Obligati
 		reg := env.eval(region).asBool()
 		q := fx.query(o)
 		q += "(assert (not " + reg + "))\n"
-		res := solve(q, 10, nil, "")
+		res := solve(q, 20, nil, "")
 		ok = res.Status == "unsat"
 	}()
 	return ok
